@@ -80,6 +80,11 @@ def cases(tier):
         add("xmini", explorer.enumerate_histories("xmini", 2, {"xblock": True, "thin": True, "only": {"set_ref", "delete", "reopen", "unlink"}}), ["AB"])
         for ent in (["blocks", "blk", "groups", "grp"], ["blocks", "blk", "tags", "tag"], ["blocks", "blk", "data_arrays", "sig"]):
             add("mini", [h for h in explorer.enumerate_histories("mini", 3, handle_cfg(ent)) if len(h) == 3], ["AB", "AAB", "ABB"])
+    # long histories (36-49 operations): deleted entities re-created under the same name and linked again, link lists
+    # emptied and refilled, reopen in between; the reference model is compared after every step
+    for h in explorer.soak_histories():
+        for hs in (None, ["A", "B"], ["A", "A", "B"]):
+            out.append({"seed": "mini", "ops": h, "h": None if hs is None else [hs[i % len(hs)] for i in range(len(h))], "single": True})
     out.append({"mode": "dims11"})        # an array of rank 11: descriptors 1..11 in order, also after reopening
     # E1s: explicit-state BFS with de-duplication on the canonical state (mc/bfs.py)
     if tier == "quick":
